@@ -204,6 +204,7 @@ struct Agg {
     prefix_digest: u64,
     prefix_runs: Vec<(String, u64, u64, u64)>, // (batch, index, log digest, aux digest)
     rehop: Vec<(usize, u64, u64)>,             // (batch no, index, log digest) to re-execute
+    cut_short: bool,
     violations: Vec<(String, u64, Violation)>, // (batch, index, violation)
     determinism_pairs: u64,
     determinism_mismatch: Vec<(String, u64)>,
@@ -230,6 +231,7 @@ impl Agg {
         self.prefix_digest = self.prefix_digest.wrapping_add(o.prefix_digest);
         self.prefix_runs.extend(o.prefix_runs);
         self.rehop.extend(o.rehop);
+        self.cut_short |= o.cut_short;
         self.violations.extend(o.violations);
         self.determinism_pairs += o.determinism_pairs;
         self.determinism_mismatch.extend(o.determinism_mismatch);
@@ -260,6 +262,12 @@ fn run_batches<P: Property>(
     let batches = p.batches(tier);
     let total = Mutex::new(Agg::default());
     let trace = std::env::var("VERIF_TRACE").is_ok();
+    // once this many runs have violated the property the rest of the exploration is skipped: chunks are
+    // claimed in increasing index order and a claimed chunk is always finished, so every index below the
+    // lowest violating index has been executed and the reported (lowest-index) representative of the
+    // first batch that fails is the same on every machine and worker count
+    let stop_after: u64 = std::env::var("VERIF_STOP_AFTER").ok().and_then(|s| s.parse().ok()).unwrap_or(48);
+    let violating = AtomicU64::new(0);
     let only = std::env::var("VERIF_ONLY_BATCH").ok();
     for (bno, b) in batches.iter().enumerate() {
         if let Some(o) = &only {
@@ -278,11 +286,15 @@ fn run_batches<P: Property>(
         std::thread::scope(|s| {
             for w in 0..nworkers {
                 let builder = std::thread::Builder::new().stack_size(64 << 20);
-                let (next, total) = (&next, &total);
+                let (next, total, violating) = (&next, &total, &violating);
                 builder
                     .spawn_scoped(s, move || {
                         let mut agg = Agg::default();
                         loop {
+                            if violating.load(Ordering::Relaxed) >= stop_after {
+                                agg.cut_short = true;
+                                break;
+                            }
                             let start = next.fetch_add(chunk, Ordering::Relaxed);
                             if start >= limit {
                                 break;
@@ -330,6 +342,7 @@ fn run_batches<P: Property>(
                                 }
                                 if let Some(v) = &rep.violation {
                                     e.1 += 1;
+                                    violating.fetch_add(1, Ordering::Relaxed);
                                     if agg.violations.len() < 10_000 {
                                         agg.violations.push((b.name.to_string(), idx, v.clone()));
                                     }
@@ -758,7 +771,7 @@ pub fn check<P: Property>(p: &P, tier: Tier) -> i32 {
     let mut process_hop = json!({"checked": false});
     let mut harness_error: Option<String> = None;
     let mut aux_mismatch: Vec<(String, u64, u64, u64)> = vec![];
-    if std::env::var("VERIF_NO_PROCESS_HOP").is_err() {
+    if std::env::var("VERIF_NO_PROCESS_HOP").is_err() && !agg.cut_short {
         let exe = std::env::current_exe().expect("current_exe");
         let out = std::process::Command::new(exe)
             .args(["digest", p.id(), tier.name()])
@@ -1051,7 +1064,8 @@ pub fn check<P: Property>(p: &P, tier: Tier) -> i32 {
             "distinct_nontrivial": agg.schedules.len(),
             "rule": p.rule(),
             "samples": samples,
-            "exhaustive": all_exhaustive,
+            "exhaustive": all_exhaustive && !agg.cut_short,
+            "cut_short_after_violations": agg.cut_short,
             "simulated_runs": agg.simulated_runs,
             "schedule_free_runs": agg.schedule_free_runs,
             "batches": batches_json,
